@@ -41,6 +41,7 @@ class SessionModel(object):
         self.ip.attr_hook = self._attr_hook
         self.ip.while_unroll = 1
         self.ip.merge_loops = True
+        self.ip.record_enter = True
         self.ip.unpack_may_raise = True
         self.ip.opaque_funcs_may_raise = {'yabgp.message.update.Update.parse',
                                           'yabgp.message.update.Update.construct'}
@@ -126,9 +127,6 @@ class SessionModel(object):
         if name in ('sys.exit',):
             st.actions.append(Action('call', 'sys', 'exit', args, kwargs, line, fq))
             return [('raise', Opaque('SystemExit'), st)]
-        if isinstance(fv, FuncV):
-            st.actions.append(Action('enter', fv.selfv.desc() if fv.selfv is not None else '',
-                                     fv.finfo.qualname, args, kwargs, line, fq))
         return None
 
     # ------------------------------------------------------------------ world
@@ -312,6 +310,8 @@ class Row(object):
         for a in self.actions:
             if a.kind == 'enter':
                 short = a.meth.rsplit('.', 1)[-1]
+                if short.startswith('__'):
+                    continue
                 if a.meth.startswith(BGP_Q + '.send_'):
                     out.append(('enter_send', short, a.args, a.kwargs, a.line))
                 elif a.meth.startswith(FSM_Q + '.'):
